@@ -41,7 +41,7 @@ ASSUMPTIONS = ['the expected value uses usertypes.<T2>.convert (C22 judges that 
                'Ref/RefList columns point to an existing table; no display columns / trigger formulas on X',
                'dependent formula results and summary tables keyed on X are exempt per the statement (not judged here)']
 BUDGET = {'quick': dict(examples=600, shards=12, max_seconds=50),
-          'thorough': dict(examples=9000, shards=16, max_seconds=420)}
+          'thorough': dict(examples=9000, shards=16, max_seconds=1800)}
 
 ZONES = ['UTC', 'America/New_York', 'Asia/Tokyo']
 BASES = ['Text', 'Int', 'Numeric', 'Bool', 'Date', 'DateTime', 'Choice', 'ChoiceList', 'Ref', 'RefList', 'Any']
